@@ -17,6 +17,7 @@ REFUTATION = [
     ('invariant not satisfied before loop', 'inv-init'),
     ('loop invariant not satisfied', 'inv'),
     ('assertion failed', 'assert'),
+    ('requires not satisfied', 'assert'),
     ('possible arithmetic underflow/overflow', 'arith'),
     ('possible division by zero', 'div0'),
     ('possible bit shift underflow/overflow', 'shift'),
